@@ -90,7 +90,7 @@ def requirements(tier):
         "matrix:qsw": 3000 * k, "matrix:tnw": 3000 * k, "matrix:hyperbolic": 1000 * k, "matrix:elliptic": 1000 * k,
         "matrix:expanded": 1000 * k,
         "frame:orientation-None": 100 * k, "frame:orientation-QSW": 100 * k, "frame:orientation-TNW": 100 * k,
-        "dkep:keplerian-continuous-man": 2000 * k, "dkep:keplerian-continuous-man-second-state": 2000 * k, "knum:iter-from-later-start": 40 * k, "knum:several-bodies": 40 * k, "knum:later-start:applications-counted": 60 * k, "knum:later-start:impulse-far": 15 * k, "frame:reference-is-an-ephemeris": 15 * k, "frame:reference-orbit-about-the-moon": 20 * k, "frame:origin": 900 * k, "frame:roundtrip": 900 * k, "frame:axes": 900 * k, "frame:moving": 120 * k, "frame:static": 20 * k,
+        "dkep:keplerian-continuous-man": 2000 * k, "dkep:keplerian-continuous-man-second-state": 2000 * k, "knum:iter-from-later-start": 40 * k, "knum:several-bodies": 40 * k, "frame:working-name-reattached": 300 * k, "knum:maneuver-date-labelled-in-another-scale": 150 * k, "knum:later-start:applications-counted": 60 * k, "knum:later-start:impulse-far": 15 * k, "frame:reference-is-an-ephemeris": 15 * k, "frame:reference-orbit-about-the-moon": 20 * k, "frame:origin": 900 * k, "frame:roundtrip": 900 * k, "frame:axes": 900 * k, "frame:moving": 120 * k, "frame:static": 20 * k,
         "mandv:impulsive": 1500 * k, "mandv:continuous": 1500 * k, "mandv:tag-QSW": 500 * k, "mandv:tag-TNW": 500 * k, "mandv:tag-None": 500 * k,
         "mandv:hyperbolic": 300 * k, "mandv:duration-multi-day": 200 * k, "mandv:duration-whole-days": 200 * k, "mandv:check-tiling": 1000 * k,
         "dkep:judged": 3000 * k, "dkep:da": 1000 * k, "dkep:di": 1000 * k, "dkep:dOmega": 1000 * k, "dkep:realised": 2000 * k,
@@ -416,6 +416,45 @@ def case_frames(ctx, job, idx, rng, st):
                 ctx.count("frame:axes")
             except Exception as exc:
                 ctx.violation("C17/orbit-frame-conversion-raises", dict(w, exc=repr(exc)), f"conversion to/from the orbit frame raised {exc!r}")
+
+
+    working_name_scenario(ctx, job, idx, rng, st, epoch, edesc, T)
+
+
+def working_name_scenario(ctx, job, idx, rng, st, epoch, edesc, T):
+    """History: one working frame name ("target") attached in turn to several spacecraft at a common epoch (orbit2frame has an
+    `exists_warning` switch for exactly this re-use): each time, the frame places the orbit it is NOW attached to at its
+    origin, at the dates already asked for under that name as well."""
+    import logging
+    from beyond.frames.frames import orbit2frame
+    from beyond.orbits import Orbit
+
+    name = f"V17working{job['name'].replace('-', '')}"
+    d = date_at(epoch, int(rng.uniform(-0.5, 0.5) * T * 1e6))
+    lg = logging.getLogger("beyond.frames.frames")
+    old_level = lg.level
+    lg.setLevel(logging.ERROR)
+    try:
+        for k_ in range(3):
+            kk, state = knum_orbit(rng, st, epoch, 60, 10)
+            ori = rng.choice([None, "QSW", "TNW"])
+            w = dict(kk, scenario="working frame name attached to another spacecraft", frame_name=name, spacecraft=k_, orientation=ori, epoch=edesc, date=str(d))
+            try:
+                sc = Orbit(state, epoch, "cartesian", "EME2000", "Kepler")
+                fr = orbit2frame(name, sc, orientation=ori, exists_warning=False) if rng.random() < 0.5 else sc.as_frame(name, orientation=ori, exists_warning=False)
+                at = sc.propagate(d)
+                z = probe.arr(at.copy(frame=fr if rng.random() < 0.5 else name))
+            except Exception as exc:
+                ctx.violation("C17/orbit-frame-conversion-raises", dict(w, exc=repr(exc)), f"working frame name: {exc!r}")
+                return
+            L, V = float(np.linalg.norm(probe.arr(at)[:3])), float(np.linalg.norm(probe.arr(at)[3:]))
+            ctx.count("frame:working-name-reattached")
+            ctx.resid("frame:working-name:origin:pos", float(np.linalg.norm(z[:3])), FRAME_REL * L + 1e-9, key="C17/orbit-frame-origin-after-the-name-was-attached-to-another-orbit",
+                      witness=dict(w, got=z), msg=f"spacecraft #{k_} is {np.linalg.norm(z[:3])!r} m from the origin of the frame {name!r} just attached to it")
+            ctx.resid("frame:working-name:origin:vel", float(np.linalg.norm(z[3:])), FRAME_REL * V + 1e-12, key="C17/orbit-frame-origin-after-the-name-was-attached-to-another-orbit",
+                      witness=dict(w, got=z), msg=f"spacecraft #{k_} moves at {np.linalg.norm(z[3:])!r} m/s in the frame {name!r} just attached to it")
+    finally:
+        lg.setLevel(old_level)
 
 
 # =============================================================================================
@@ -955,19 +994,31 @@ def case_knum(ctx, job, idx, rng, st):
     if len(mans_d) > 1:
         ctx.count("knum:multi-maneuver")
     lib_mans = []
+    # maneuver dates are instants: one case in three they come labelled in another time scale than the orbit's (a plan
+    # delivered in TT or GPS time): the same instants, the same maneuvers
+    relabel = idx % 3 == 2
+
+    def mdate(t_us):
+        d_ = date_at(epoch, t_us)
+        if relabel:
+            lab = rng.choice(["TT", "GPS", "TAI"])
+            ctx.count("knum:maneuver-date-labelled-in-another-scale")
+            return d_.change_scale(lab)
+        return d_
+
     for m in mans_d:
         if m["kind"] == "imp":
-            lib_mans.append(ImpulsiveMan(date_at(epoch, m["t_us"]), m["vec"].copy(), frame=m["tag"]))
+            lib_mans.append(ImpulsiveMan(mdate(m["t_us"]), m["vec"].copy(), frame=m["tag"]))
         elif m["kind"] == "kep":
-            lib_mans.append(KeplerianImpulsiveMan(date_at(epoch, m["t_us"]), da=m["da"], di=m["di"]))
+            lib_mans.append(KeplerianImpulsiveMan(mdate(m["t_us"]), da=m["da"], di=m["di"]))
         else:
             d_us = m["stop_us"] - m["t_us"]
             anchor = {"start": m["t_us"], "stop": m["stop_us"], "median": m["t_us"] + d_us // 2}[m["date_pos"]]
             dur = timedelta(microseconds=d_us)
             if m["given"] == "accel":
-                lib_mans.append(ContinuousMan(date_at(epoch, anchor), dur, accel=m["vec"].copy(), frame=m["tag"], date_pos=m["date_pos"]))
+                lib_mans.append(ContinuousMan(mdate(anchor), dur, accel=m["vec"].copy(), frame=m["tag"], date_pos=m["date_pos"]))
             else:
-                lib_mans.append(ContinuousMan(date_at(epoch, anchor), dur, dv=m["vec"] * (d_us * 1e-6), frame=m["tag"], date_pos=m["date_pos"]))
+                lib_mans.append(ContinuousMan(mdate(anchor), dur, dv=m["vec"] * (d_us * 1e-6), frame=m["tag"], date_pos=m["date_pos"]))
         m["obj"] = lib_mans[-1]
     prop = KeplerNum(timedelta(seconds=h_s), get_body("Earth"), method=method)
     orb = Orbit(state, epoch, "cartesian", "EME2000", prop)
